@@ -376,6 +376,8 @@ def t05_acc(run, fx, floors=True):
 
 
 def check(run, fx, tier, floors=True):
+    import bsearch
+    bsearch.rule_bsearch(run, fx, "T05-BS", select=lambda b: b.file.startswith(('src/layout.rs', 'src/gpos.rs', 'src/context.rs', 'src/tables/kern.rs', 'src/glyph_position.rs')), floors=floors, floor_n=2)
     import ignored
     ignored.run_for(run, fx, 'C05', floors)
     import speclayout
